@@ -5,6 +5,9 @@ constructs a maintainer writes either way:
          T i = a;  while (c(i)) { body; ++i; }        (i not used after the loop, no `continue` in body)
      becomes the equivalent   for (T i = a; c(i); ++i) { body }
  N2  `return c ? a : b;` becomes `if (c) return a; else return b;`
+ N3  a `for` statement without a condition, `for (T i = a; ; ++i) { body }` (no `continue` in body), becomes
+         T i = a;  while (true) { body; ++i; }
+     (the endless scan loop of the matcher is written either way)
 
 Both rewrites are semantics preserving by the C++ definition of the for statement and of the conditional operator;
 they only remove a degree of freedom in how the same behaviour is spelled. Synthetic nodes carry "synthetic": true and
@@ -99,6 +102,33 @@ def _while_to_for(comp):
     return changed
 
 
+def _endless_for(comp):
+    c = comp.get("c") or []
+    changed = False
+    i = 0
+    while i < len(c):
+        f = c[i]
+        if isinstance(f, dict) and f.get("k") == "ForStmt" and f.get("cond") is None and f.get("inc") is not None and \
+                isinstance(f.get("init"), dict) and f["init"].get("k") == "DeclStmt" and \
+                isinstance(f.get("body"), dict) and not _own_continue(f["body"]):
+            body = f["body"]
+            if body.get("k") != "CompoundStmt":
+                body = {"k": "CompoundStmt", "l": body.get("l"), "c": [body], "synthetic": True}
+            else:
+                body = dict(body)
+                body["c"] = list(body.get("c") or [])
+            body["c"].append(f["inc"])
+            w = {"k": "WhileStmt", "l": f.get("l"), "cond": {"k": "CXXBoolLiteralExpr", "v": True, "l": f.get("l"),
+                                                             "synthetic": True},
+                 "body": body, "synthetic": True}
+            c[i:i + 1] = [f["init"], w]
+            changed = True
+            i += 2
+            continue
+        i += 1
+    return changed
+
+
 def _split_return(s):
     """ReturnStmt node -> IfStmt with two returns, when the value is a conditional expression."""
     v = s.get("value")
@@ -130,6 +160,8 @@ def normalise(body):
         if k == "LambdaExpr":
             pass
         if k == "CompoundStmt":
+            if _endless_for(node):
+                n += 1
             if _while_to_for(node):
                 n += 1
             c = node.get("c") or []
